@@ -595,6 +595,11 @@ func (bridge *ExprBridge) convertLikeToFunction(field, pattern string) string {
 		return fmt.Sprintf("%s == ''", field)
 	}
 
+	// The pattern is pasted into an expr-lang string literal, where a backslash
+	// starts an escape sequence. LIKE gives the backslash no special meaning, so
+	// escape it to keep it a literal character.
+	pattern = strings.ReplaceAll(pattern, `\`, `\\`)
+
 	// 含 _ 或内部 % 的模式必须走完整匹配器，startsWith/endsWith/contains
 	// 快速路径会把这些通配符当作字面量处理。
 	core := strings.Trim(pattern, "%")
